@@ -48,7 +48,7 @@ def _case(draw):
     if kind == 'single':
         spec = draw(D.dataset_spec(dense=True, naming='ks', amplitudes=True,
                                    full_feature_rows=True, max_nc=10, clusters_file=True,
-                                   int_templates=False))
+                                   int_templates=False, footprints=True))
         if spec['raw'] and spec['raw']['backend'] == 'cbin':
             spec['raw']['chunk'] = max(spec['raw']['chunk'], int(ceil(spec['n_raw'] / 18.0)))
         return {'k': 'single', 'spec': spec, 'factor': factor, 'ncc': draw(st.integers(2, 12)),
@@ -168,13 +168,37 @@ def check_waveform_object(S, Wset, ids, wf, chs, f, ncw, what, empty_required, i
                 'channels' % k, key='wf-values', observed=wf[k], expected=exp)
 
 
-def check_export(S, m, out, f, ncc, chmaps, info):
+def check_cluster_waveforms(S, CW, ncc, shanks, info):
+    """The cluster waveforms that get exported, recomputed from the source files (the weighted
+    mean of C08) wherever the channel lists involved are unambiguous."""
+    from .c08 import expected_cluster_mean
+    from phylib.utils import Bunch
+    T = Bunch(spike_templates=S.st, spike_clusters=S.sc, templates=S.W, pos=S.pos, shanks=shanks)
+    scale = float(np.max(np.abs(S.W))) or 1.0
+    for c in sorted(set(int(x) for x in S.sc)):
+        ts = sorted(set(int(t) for t, cc in zip(S.st, S.sc) if int(cc) == c))
+        if len(ts) == 1:
+            exp = [(None, S.W[ts[0]])]
+        else:
+            exp = expected_cluster_mean(T, c, S.wmi, ncc, False)
+            if exp is None:
+                continue
+            info['multi_checked'] = True
+        require(any(np.allclose(CW[c], full, rtol=1e-5, atol=1e-6 * scale) for _, full in exp),
+                'waveform of cluster %d (input of the exported cluster tables) is not its '
+                'template / the count-weighted mean of its templates' % c,
+                key='cluster-waveform-input', observed=CW[c], expected=exp[0][1])
+
+
+def check_export(S, m, out, f, ncc, chmaps, info, shanks=False):
     nt = S.W.shape[0]
     nc = S.pos.shape[0]
     ncw = min(ncc, nc)
     ns = len(S.st)
     CW = np.asarray(m.sparse_clusters.data, dtype=np.float64)     # cluster waveforms (C08)
     n_clusters = CW.shape[0]
+    if shanks is not False and S.curated:
+        check_cluster_waveforms(S, CW, ncc, shanks, info)
     L = lambda name: np.load(out / name)  # noqa: E731
     # templates
     check_waveform_object(S, S.W, S.st, L('templates.waveforms.npy'),
@@ -265,6 +289,7 @@ def check(case):
             src = T.dir
             chmaps = [T.chmap]
             rate = T.rate
+            shanks = T.shanks
         else:
             Ts = G.build_probes({'probes': case['probes']}, d)
             src = d / 'merged'
@@ -275,6 +300,7 @@ def check(case):
                 pass
             chmaps = [T.chmap for T in Ts]
             rate = Ts[0].rate
+            shanks = False      # (merged data: the cluster waveforms are taken from the model)
         m = load_with_ncc(src / 'params.py', case['ncc'])
         mt = getattr(getattr(m, 'traces', None), 'reader', None)
         om = None
@@ -284,7 +310,7 @@ def check(case):
             creator = must_return('EphysAlfCreator()', EphysAlfCreator, m)
             out = d / 'alf'
             om = must_return('convert', creator.convert, out, ampfactor=f)
-            check_export(S, m, out, f, case['ncc'], chmaps, info)
+            check_export(S, m, out, f, case['ncc'], chmaps, info, shanks)
             if case.get('second_factor') is not None:
                 # the same converter object converts again, into another directory, with another
                 # unit factor
@@ -293,7 +319,7 @@ def check(case):
                 om2 = must_return('convert (second, same converter)', creator.convert, out2,
                                   ampfactor=f2)
                 try:
-                    check_export(S, m, out2, f2, case['ncc'], chmaps, info)
+                    check_export(S, m, out2, f2, case['ncc'], chmaps, info, shanks)
                 finally:
                     try:
                         om2.close()
@@ -315,7 +341,7 @@ def check(case):
                 creator = must_return('EphysAlfCreator()', EphysAlfCreator, m)
                 om = must_return('convert (again, same directory, force)', creator.convert, out,
                                  force=True, ampfactor=f)
-                check_export(S, m, out, f, case['ncc'], chmaps, info)
+                check_export(S, m, out, f, case['ncc'], chmaps, info, shanks)
                 info['reexported'] = True
         finally:
             for x in (m, om):
@@ -358,4 +384,8 @@ def classify(case, info):
         nt = True
     if info.get('reexported'):
         labels.append('re-export-into-same-directory')
+    if info.get('multi_checked'):
+        labels.append('multi-template-cluster-waveform-recomputed')
+    if case['k'] == 'single' and case['spec']['templates'].get('footprint'):
+        labels.append('templates-zero-outside-footprint')
     return labels, nt
